@@ -1,3 +1,4 @@
 import Audit.Tool
 import Uds.Props.C11
+import Uds.Props.C11Call
 #audit Uds.Props.C11
